@@ -184,3 +184,6 @@ Proof.
   pose proof (pval_complete v Hn (S (length (toks_of v))) [] ltac:(pose proof (jsize_le_toks v); lia)) as Hp.
   rewrite app_nil_r in Hp. rewrite Hp. reflexivity.
 Qed.
+
+Corollary serialisation_parses v : nums_ok v = true -> wf_value (toks_of v) /\ parse_tokens (toks_of v) = Some v.
+Proof. intros H. split; [exact (wf_toks_of v H) | exact (parse_tokens_toks_of v H)]. Qed.
